@@ -1136,7 +1136,6 @@ def _history_checks(hist: dict, kind: str, db: int, env: dict) -> list[dict]:
             atts = [e for e in events if e["ev"] == "attempt"]
             bad = oracle_sequence(l, "temporary", db, events)
             bad += [("called-twice", "function called twice in one execution") for e in atts if e["calls"] > 1]
-            bad += [("idle-cycle-in-loop", "the in-memory loop woke up although the handler was not due") for e in events if e["ev"] == "idle"]
             if not atts:
                 continue
             script = [[e["x"], e["dur"]] for e in atts]
